@@ -1,4 +1,407 @@
 package main
 
-// thorough tier additions (filled in later)
-func (w *World) thorough(id string, def propDef, run *Run) {}
+// Thorough tier: (1) second load with GOARCH=386 (identical file set, same
+// verdicts), (2) self-validation of the checker on hand-written variants
+// (/verif/variants/*.patch) and on seeded variants kept from independent
+// breakage attempts (/verif/seeded/*/patch.diff), (3) mechanically generated
+// variants chosen by VERIF_SEED. Every variant is applied to a scratch copy
+// outside /repo and /verif, analysed in a child process, and deleted.
+// Self-validation validates the *checker*; no verdict about /repo depends on it.
+
+import (
+	"bytes"
+	"encoding/json"
+	"fmt"
+	"go/ast"
+	"go/token"
+	"math/rand"
+	"os"
+	"os/exec"
+	"path/filepath"
+	"sort"
+	"strconv"
+	"strings"
+	"sync"
+)
+
+type variant struct {
+	Name   string
+	Patch  string   // path of a unified diff (p1)
+	Props  []string // properties expected to report it
+	Expect []string // substrings, one of which must appear in the child's report ("" = any violation)
+	Edit   func(dir string) error
+}
+
+func copyTree(src, dst string) error {
+	for _, d := range []string{"20", "30", "31", "40"} {
+		ents, err := os.ReadDir(filepath.Join(src, d))
+		if err != nil {
+			return err
+		}
+		if err := os.MkdirAll(filepath.Join(dst, d), 0o755); err != nil {
+			return err
+		}
+		for _, e := range ents {
+			if e.IsDir() {
+				continue
+			}
+			b, err := os.ReadFile(filepath.Join(src, d, e.Name()))
+			if err != nil {
+				return err
+			}
+			if err := os.WriteFile(filepath.Join(dst, d, e.Name()), b, 0o644); err != nil {
+				return err
+			}
+		}
+	}
+	for _, f := range []string{"go.mod", "go.sum"} {
+		b, err := os.ReadFile(filepath.Join(src, f))
+		if err != nil {
+			return err
+		}
+		if err := os.WriteFile(filepath.Join(dst, f), b, 0o644); err != nil {
+			return err
+		}
+	}
+	return nil
+}
+
+type variantResult struct {
+	Name     string `json:"name"`
+	Outcome  string `json:"outcome"` // detected, missed, skipped(<why>)
+	Reported string `json:"reported,omitempty"`
+}
+
+func runVariant(self, repo, prop string, v variant) variantResult {
+	dir, err := os.MkdirTemp("", "cvsscheck-variant-")
+	if err != nil {
+		return variantResult{v.Name, "skipped(tempdir)", ""}
+	}
+	defer os.RemoveAll(dir)
+	if err := copyTree(repo, dir); err != nil {
+		return variantResult{v.Name, "skipped(copy: " + err.Error() + ")", ""}
+	}
+	if v.Patch != "" {
+		cmd := exec.Command("patch", "-p1", "-s", "--no-backup-if-mismatch", "-i", v.Patch)
+		cmd.Dir = dir
+		if out, err := cmd.CombinedOutput(); err != nil {
+			return variantResult{v.Name, "skipped(patch does not apply to the current tree)", clipN(string(out), 120)}
+		}
+	}
+	if v.Edit != nil {
+		if err := v.Edit(dir); err != nil {
+			return variantResult{v.Name, "skipped(" + err.Error() + ")", ""}
+		}
+	}
+	b := exec.Command("go", "build", "./20", "./30", "./31", "./40")
+	b.Dir = dir
+	b.Env = loadEnv("")
+	if out, err := b.CombinedOutput(); err != nil {
+		return variantResult{v.Name, "skipped(variant does not compile)", clipN(string(out), 160)}
+	}
+	c := exec.Command(self, "-prop", prop, "-repo", dir, "-no-evidence", "-tier", "quick", "-no-controls")
+	c.Env = append(os.Environ(), "VERIF_TIER=quick")
+	var out bytes.Buffer
+	c.Stdout = &out
+	c.Stderr = &out
+	err = c.Run()
+	code := 0
+	if ee, ok := err.(*exec.ExitError); ok {
+		code = ee.ExitCode()
+	} else if err != nil {
+		return variantResult{v.Name, "skipped(child: " + err.Error() + ")", ""}
+	}
+	rep := ""
+	for _, ln := range strings.Split(out.String(), "\n") {
+		if strings.Contains(ln, "[R") || strings.Contains(ln, "[floor]") || strings.Contains(ln, "[control]") {
+			rep = clipN(strings.TrimSpace(ln), 220)
+			break
+		}
+	}
+	if code != 1 {
+		return variantResult{v.Name, "missed", rep}
+	}
+	if len(v.Expect) > 0 {
+		hit := false
+		for _, e := range v.Expect {
+			if e == "" || strings.Contains(out.String(), e) {
+				hit = true
+			}
+		}
+		if !hit {
+			return variantResult{v.Name, "missed(reported something else than " + strings.Join(v.Expect, "|") + ")", rep}
+		}
+	}
+	return variantResult{v.Name, "detected", rep}
+}
+
+// loadVariants reads /verif/variants/*.patch (header lines "# property: C07 C02",
+// "# expect: R07.preserve") and /verif/seeded/*/{patch.diff,meta.json}.
+func loadVariants(verif, prop string) []variant {
+	var out []variant
+	files, _ := filepath.Glob(filepath.Join(verif, "variants", "*.patch"))
+	sort.Strings(files)
+	for _, f := range files {
+		b, err := os.ReadFile(f)
+		if err != nil {
+			continue
+		}
+		v := variant{Name: "variants/" + filepath.Base(f), Patch: f}
+		for _, ln := range strings.Split(string(b), "\n") {
+			if strings.HasPrefix(ln, "# property:") {
+				v.Props = strings.Fields(strings.TrimPrefix(ln, "# property:"))
+			}
+			if strings.HasPrefix(ln, "# expect:") {
+				v.Expect = append(v.Expect, strings.TrimSpace(strings.TrimPrefix(ln, "# expect:")))
+			}
+		}
+		for _, p := range v.Props {
+			if p == prop {
+				out = append(out, v)
+			}
+		}
+	}
+	dirs, _ := filepath.Glob(filepath.Join(verif, "seeded", "*"))
+	sort.Strings(dirs)
+	for _, d := range dirs {
+		mb, err := os.ReadFile(filepath.Join(d, "meta.json"))
+		if err != nil {
+			continue
+		}
+		var meta struct {
+			Property   string   `json:"property"`
+			DetectedBy []string `json:"detected_by"`
+		}
+		if json.Unmarshal(mb, &meta) != nil {
+			continue
+		}
+		for _, p := range meta.DetectedBy {
+			if p == prop {
+				out = append(out, variant{Name: "seeded/" + filepath.Base(d), Patch: filepath.Join(d, "patch.diff"), Props: meta.DetectedBy})
+			}
+		}
+	}
+	return out
+}
+
+// mechanical variants: perturb one literal of the kind the property's rules read.
+func (w *World) mechanicalVariants(prop string, seed int64, n int) []variant {
+	type site struct {
+		file string // relative
+		off  int
+		old  string
+		new  string
+		desc string
+	}
+	var sites []site
+	addLits := func(p *Pkg, fd *ast.FuncDecl, kind token.Token, mut func(string) (string, bool), what string) {
+		if fd == nil || fd.Body == nil {
+			return
+		}
+		ast.Inspect(fd.Body, func(n ast.Node) bool {
+			bl, ok := n.(*ast.BasicLit)
+			if !ok || bl.Kind != kind {
+				return true
+			}
+			nv, ok := mut(bl.Value)
+			if !ok {
+				return true
+			}
+			ps := p.Fset.Position(bl.Pos())
+			rel, _ := filepath.Rel(w.Repo, ps.Filename)
+			sites = append(sites, site{rel, ps.Offset, bl.Value, nv, fmt.Sprintf("%s: %s %s -> %s in %s", p.posAt(bl.Pos()), what, bl.Value, nv, fd.Name.Name)})
+			return true
+		})
+	}
+	rng := rand.New(rand.NewSource(seed))
+	flipBit := func(s string) (string, bool) {
+		if !strings.HasPrefix(s, "0b") || len(s) != 10 {
+			return "", false
+		}
+		b := []byte(s)
+		i := 2 + rng.Intn(8)
+		if b[i] == '0' {
+			b[i] = '1'
+		} else {
+			b[i] = '0'
+		}
+		return string(b), true
+	}
+	bumpFloat := func(s string) (string, bool) {
+		f, err := strconv.ParseFloat(s, 64)
+		if err != nil || !strings.Contains(s, ".") {
+			return "", false
+		}
+		return strconv.FormatFloat(f+0.01, 'f', -1, 64), true
+	}
+	switch prop {
+	case "C07", "C02", "C06", "C08", "C16":
+		for _, k := range w.Order {
+			p := w.Pkgs[k]
+			if prop == "C16" && k != "40" {
+				continue
+			}
+			addLits(p, p.method("Set"), token.INT, flipBit, "mask bit flipped")
+			if prop != "C16" {
+				addLits(p, p.method("Get"), token.INT, flipBit, "mask bit flipped")
+			}
+		}
+	case "C03", "C05", "C12":
+		for _, k := range w.Order {
+			if (prop == "C05") != (k == "20") || k == "40" {
+				if !(prop == "C12" && k != "40") {
+					continue
+				}
+			}
+			p := w.Pkgs[k]
+			for name, fd := range p.Funcs {
+				if fd.Recv == nil && fd.Type.Results != nil && len(fd.Type.Results.List) == 1 && fd.Type.Params != nil {
+					ps := paramObjs(p.Info, fd)
+					if len(ps) >= 1 && isUint8(ps[0].Type()) && name != "mod" {
+						addLits(p, fd, token.FLOAT, bumpFloat, "weight perturbed")
+					}
+				}
+			}
+		}
+	case "C04":
+		p := w.Pkgs["40"]
+		addLits(p, p.Funcs["lookupMV"], token.FLOAT, bumpFloat, "lookup cell perturbed")
+	case "C10":
+		for _, k := range []string{"30", "31"} {
+			p := w.Pkgs[k]
+			addLits(p, p.method("EnvironmentalScore"), token.INT, flipBit, "mask bit flipped")
+		}
+		p := w.Pkgs["40"]
+		addLits(p, p.method("macroVector"), token.INT, flipBit, "mask bit flipped")
+	case "C17":
+		for _, k := range w.Order {
+			p := w.Pkgs[k]
+			addLits(p, p.Funcs["lenVec"], token.INT, func(s string) (string, bool) {
+				v, err := strconv.Atoi(s)
+				if err != nil || v < 2 {
+					return "", false
+				}
+				return strconv.Itoa(v - 1), true
+			}, "size decremented")
+		}
+	}
+	if len(sites) == 0 {
+		return nil
+	}
+	// pre-draw all mutations deterministically, then pick n
+	sort.Slice(sites, func(i, j int) bool {
+		if sites[i].file != sites[j].file {
+			return sites[i].file < sites[j].file
+		}
+		return sites[i].off < sites[j].off
+	})
+	perm := rng.Perm(len(sites))
+	var out []variant
+	for i := 0; i < n && i < len(perm); i++ {
+		s := sites[perm[i]]
+		out = append(out, variant{Name: "generated/" + s.desc, Edit: func(dir string) error {
+			f := filepath.Join(dir, s.file)
+			b, err := os.ReadFile(f)
+			if err != nil {
+				return err
+			}
+			if s.off+len(s.old) > len(b) || string(b[s.off:s.off+len(s.old)]) != s.old {
+				return fmt.Errorf("literal moved")
+			}
+			nb := append(append(append([]byte(nil), b[:s.off]...), []byte(s.new)...), b[s.off+len(s.old):]...)
+			return os.WriteFile(f, nb, 0o644)
+		}})
+	}
+	return out
+}
+
+func (w *World) thorough(id string, def propDef, run *Run) {
+	// (1) GOARCH=386: identical file set and verdicts
+	w2, err := load(w.Repo, "386")
+	if err != nil {
+		run.fail("thorough.386", "load", "", "GOARCH=386 load failed: "+err.Error())
+	} else {
+		same := len(w2.Files) == len(w.Files)
+		for i := range w.Files {
+			if !same || w.Files[i] != w2.Files[i] {
+				same = false
+				break
+			}
+		}
+		run.check(same, "thorough.386", "fileset", "", fmt.Sprintf("GOARCH=386 build consists of the same %d files", len(w.Files)), "GOARCH=386 compiles a different file set: architecture-specific sources are outside the model")
+		w2.Tier = "quick"
+		var all []Obligation
+		for _, g := range def.Groups {
+			if g == "alloc" || g == "effects" {
+				continue // compiler census / SSA are decided on the native build
+			}
+			groups[g](w2, &all)
+		}
+		bad := 0
+		n := 0
+		for _, o := range all {
+			keep := false
+			for _, pat := range def.Rules {
+				if ruleMatches(pat, o) {
+					keep = true
+				}
+			}
+			if !keep {
+				continue
+			}
+			n++
+			if !o.OK {
+				bad++
+				o.Instance = "386:" + o.Instance
+				run.add(o)
+			}
+		}
+		run.check(bad == 0, "thorough.386", "verdicts", "", fmt.Sprintf("%d obligations re-derived under GOARCH=386 with identical verdicts", n), fmt.Sprintf("%d obligations fail under GOARCH=386", bad))
+	}
+	// (2)+(3) self-validation, only when the main verdict is PASS
+	for _, o := range run.Obls {
+		if !o.OK {
+			run.Extra["self_validation"] = "skipped: the tree has violations"
+			return
+		}
+	}
+	self, err := os.Executable()
+	if err != nil {
+		run.Notes = append(run.Notes, "self-validation skipped: cannot locate own binary")
+		return
+	}
+	vs := loadVariants(w.Verif, id)
+	vs = append(vs, w.mechanicalVariants(id, w.Seed, 8)...)
+	results := make([]variantResult, len(vs))
+	sem := make(chan struct{}, 8)
+	var wg sync.WaitGroup
+	for i := range vs {
+		wg.Add(1)
+		go func(i int) {
+			defer wg.Done()
+			sem <- struct{}{}
+			defer func() { <-sem }()
+			results[i] = runVariant(self, w.Repo, id, vs[i])
+		}(i)
+	}
+	wg.Wait()
+	det, miss, skip := 0, 0, 0
+	for _, r := range results {
+		switch {
+		case r.Outcome == "detected":
+			det++
+			run.okTrivial("selfcheck", r.Name, "", "variant reported: "+r.Reported)
+		case strings.HasPrefix(r.Outcome, "skipped"):
+			skip++
+		default:
+			miss++
+			// generated variants may be behaviour-preserving (e.g. a bit outside any field): informational
+			if strings.HasPrefix(r.Name, "generated/") {
+				run.Notes = append(run.Notes, "generated variant not reported (may be behaviour-preserving): "+r.Name)
+			} else {
+				run.fail("selfcheck", r.Name, "", "the checker no longer reports a variant it is recorded to catch: "+r.Outcome)
+			}
+		}
+	}
+	run.Extra["self_validation"] = map[string]any{"variants": len(vs), "detected": det, "missed": miss, "skipped": skip, "results": results, "seed": w.Seed}
+}
